@@ -31,7 +31,7 @@ import threading
 import time
 import traceback
 
-from joblib._parallel_backends import ParallelBackendBase
+from joblib._parallel_backends import AutoBatchingMixin, ParallelBackendBase
 from joblib.parallel import Parallel
 
 WATCHDOG = 12.0   # seconds without any event while something must happen => hang
@@ -75,7 +75,9 @@ class Job:
     # joblib may call .get() on the job for backends without retrieval callbacks; not used here.
 
 
-class SchedBackend(ParallelBackendBase):
+class SchedBackend(AutoBatchingMixin, ParallelBackendBase):
+    """Controlled backend.  With spec["auto_mode"] == "mixin" and batch_size='auto' the batch size comes from joblib's
+    own AutoBatchingMixin heuristic, fed with DRAWN batch durations instead of wall-clock ones."""
     supports_retrieve_callback = True
     supports_sharedmem = True
     uses_threads = True
@@ -108,14 +110,20 @@ class SchedBackend(ParallelBackendBase):
         eng = self.eng
         k = eng.counter("batchsize")
         eng.gate("batchsize", k)
-        sizes = eng.spec.get("auto_sizes") or [1]
-        size = sizes[k % len(sizes)]
+        if eng.spec.get("auto_mode") == "mixin":
+            size = AutoBatchingMixin.compute_batch_size(self)
+        else:
+            sizes = eng.spec.get("auto_sizes") or [1]
+            size = sizes[k % len(sizes)]
         eng.ev("batchsize", k=k, size=size)
         return size
 
     def batch_completed(self, batch_size, duration):
         k = self.eng.counter("batchdone")
         self.eng.gate("batchdone", k)
+        if self.eng.spec.get("auto_mode") == "mixin":
+            durs = self.eng.spec.get("durations") or [0.01]
+            AutoBatchingMixin.batch_completed(self, batch_size, durs[k % len(durs)])
         self.eng.ev("batch_completed", size=batch_size)
 
     def abort_everything(self, ensure_ready=True):
@@ -167,6 +175,8 @@ class Engine:
         self.recall_holder = []
         self.parked_gates = []
         self.park_ok = None      # name of the only worker thread that may be left parked right now
+        self.park_next_call_ok = False
+        self.park_policy = {}    # gate key -> True (until the next consumer action) | "next_call" (until the next call dispatched)
 
     # ---- trace --------------------------------------------------------------
     def ev(self, kind, **kw):
@@ -372,6 +382,8 @@ class Engine:
             # leave the (worker) thread parked inside harness-owned code - it may hold joblib's dispatch lock - until
             # the NEXT consumer action has been started: "the consumer closes / pulls while a callback is dispatching"
             self.parked_gates.append(key)
+            # keeping a callback parked until the NEXT call only makes sense when its own run is abandoned right away
+            self.park_policy[key] = g.get("park") if (g.get("park") != "next_call" or self.park_next_call_ok) else True
             self.ev("gate_parked", gate=key[0], at=key[1])
             return
         started = []
@@ -396,18 +408,26 @@ class Engine:
         self.held.pop(key).set()
         # the probes finish on their own; their worker_done events are consumed by later waits
 
-    def release_parked(self, wait_m=0.0):
-        """Release the parked threads; before that give the consumer action just started `wait_m` seconds to finish."""
-        if not self.parked_gates:
-            return
-        t_end = time.time() + wait_m
-        while time.time() < t_end and self.m_busy is not None:
-            time.sleep(0.002)
+    def release_parked(self, wait_m=0.0, next_call=False):
+        """Release the parked threads; before that give the consumer action just started `wait_m` seconds to finish.
+        Threads parked with policy "next_call" stay parked across consumer actions of their own call (when that cannot
+        block them: hooks outside joblib's lock) and are released once the NEXT call has finished its initial dispatch."""
+        keep = []
+        todo = []
         for key in self.parked_gates:
-            ev = self.held.pop(key, None)
-            if ev is not None:
-                ev.set()
-        self.parked_gates = []
+            if self.park_policy.get(key) == "next_call" and not next_call and key[0] == "batchdone":
+                keep.append(key)
+            else:
+                todo.append(key)
+        if todo:
+            t_end = time.time() + wait_m
+            while time.time() < t_end and self.m_busy is not None:
+                time.sleep(0.002)
+            for key in todo:
+                ev = self.held.pop(key, None)
+                if ev is not None:
+                    ev.set()
+        self.parked_gates = keep
 
     def dump_frames(self):
         out = {}
@@ -500,6 +520,7 @@ def run(spec):
             report["calls"].append(rec)
             if eng.hang:
                 break
+        eng.release_parked(next_call=True)
         if spec.get("managed") and not eng.hang:
             eng.m_start("exit", lambda: par.__exit__(None, None, None))
             eng.m_wait("exit")
@@ -541,7 +562,7 @@ def _complete_one(eng, job, late=False, allow_park=False):
                 return False
             if job.state == "done" or allow_park:
                 return True
-            eng.release_parked()
+            eng.release_parked(next_call=True)
     finally:
         eng.park_ok = None
 
@@ -580,6 +601,7 @@ def _run_call(eng, par, k, call, gen_mode):
     else:
         eng.m_start("call", lambda: par(inp))
     if not gen_mode:
+        eng.release_parked(next_call=True)
         for step in call.get("steps", []):
             if step[0] not in ("c", "late"):
                 continue
@@ -619,6 +641,7 @@ def _run_call(eng, par, k, call, gen_mode):
     eng.m_result = None
     eng.burst_over = True
     eng.ev("call_returned_generator", outcome=kind)
+    eng.release_parked(next_call=True)     # callbacks of the PREVIOUS call that were kept parked resume now
     if kind != "ok":
         rec["outcome"] = "raised"
         rec["exception"] = _exc_desc(val)
@@ -691,10 +714,12 @@ def _run_call(eng, par, k, call, gen_mode):
                 return True
         return False
 
-    for step in call.get("steps", []):
+    steps = call.get("steps", [])
+    for si, step in enumerate(steps):
         if eng.hang:
             break
         op = step[0]
+        eng.park_next_call_ok = (si + 1 < len(steps) and steps[si + 1][0] in ("close", "drop") and k + 1 < len(eng.spec["calls"]))
         if op in ("c", "late"):
             eng.release_parked()
         if op == "c":
